@@ -33,6 +33,20 @@ def case_size(case) -> int:
     return len(json.dumps(case, default=str))
 
 
+_KNOWN = None
+
+
+def known_ids():
+    """ids listed with status "known" in the committed known_findings.json (read only, never written)"""
+    global _KNOWN
+    if _KNOWN is None:
+        import json
+        import os
+        p = os.path.join(os.path.dirname(os.path.dirname(os.path.abspath(__file__))), "known_findings.json")
+        _KNOWN = {k["id"] for k in json.load(open(p))["findings"] if k.get("status") == "known"}
+    return _KNOWN
+
+
 def run_property(mod, prop, seed, tier, seconds, max_cases, replay=None):
     out = Outcome(prop)
     drv = Driver()
@@ -79,7 +93,7 @@ def run_property(mod, prop, seed, tier, seconds, max_cases, replay=None):
                 out.sample({"case": case, "branch": verdict.get("branch")})
             if not verdict["prop_ok"]:
                 fid = mod.known(case, verdict) if hasattr(mod, "known") else None
-                if fid is not None:
+                if fid is not None and fid in known_ids():
                     out.known_hits.append((fid, origin))
                 else:
                     out.violations.append({"case": case, "detail": verdict.get("detail"),
@@ -116,7 +130,7 @@ def shrink(mod, drv_factory, failing, budget_s=20):
                     v = mod.eval_case(cand, drv)
                 except Exception:
                     continue
-                if not v["prop_ok"] and not (hasattr(mod, "known") and mod.known(cand, v)):
+                if not v["prop_ok"] and not (hasattr(mod, "known") and mod.known(cand, v) in known_ids()):
                     cur = {"case": cand, "detail": v.get("detail"), "origin": "shrunk",
                            "branch": v.get("branch")}
                     progress = True
